@@ -5,8 +5,10 @@
      terminates within |reserved|+1 attempts when lower-casing leaves generated names unchanged;
    - assign_names: pairwise distinct names; every name it generates differs, compared through `lower`, from every
      user name in the reserved set and from every other name of the result; user names that are free are kept;
-   - ensure_column_name / split_names / select_item_alias: exact distinctness for all inputs; the case-insensitive
-     statement for columns is false (witness) and holds when no user column is a case variant of a generated name. *)
+   - ensure_column_name / split_names / select_item_alias, for every reserved set of column names: exact distinctness
+     for all inputs; case-insensitive distinctness when the incoming names are reserved (split_names_ci_fresh: the repair
+     of F33b); false with nothing reserved (witness in Props) and true there when no incoming name is a case variant of
+     a generated name (split_names_ci_partial); column_ci_status ties the two to the flag read from the source. *)
 From Coq Require Import List NArith Bool Lia FinFun.
 From PV Require Import Lib.ListX Model.SqlLex Model.Literal Model.Ident Model.NameGen
                        Proofs.LiteralProofs Proofs.IdentProofs.
